@@ -368,6 +368,27 @@ Definition tract_place (chs : list pchunk) (acc : list nat) (t : nat) : list Z :
 Definition enc_chunk (c : chunk) : list Z :=
   nz (length c) :: flat_map (fun e => [nz (e_tr e); Nz (e_off e); Nz (e_len e)]) c.
 
+(* ---------- the states built by ops 10 / 11 / 15 (named so that invariants can be stated about them) ---------- *)
+(* op 10: packTracts on the tracts in their post-sort order *)
+Definition st_pack (n' m' : nat) (tg sl : N) (trs : list tract) : st :=
+  let chs := ffd (map t_len trs) tg in
+  {| s_n := n'; s_m := m'; s_M := class_matrix n' m'; s_target := tg; s_tracts := trs; s_chunks := chs;
+     s_acc := map pc_leader (accepted chs tg sl); s_stripes := []; s_hosts := []; s_blobs := []; s_codec := [] |}.
+
+(* op 11: packChunks groups the accepted chunks, in the order [ls] of their leaders, into stripes of n *)
+Definition st_stripes (s : st) (ls : list nat) : st :=
+  let exts := map (fun l => match find_chunk s l with Some c => pc_exts c | None => [] end) ls in
+  let k := (length ls / s_n s)%nat in
+  {| s_n := s_n s; s_m := s_m s; s_M := s_M s; s_target := s_target s; s_tracts := s_tracts s;
+     s_chunks := s_chunks s; s_acc := s_acc s; s_stripes := firstn k (chunks_of k (s_n s) exts);
+     s_hosts := repeat [] k; s_blobs := s_blobs s; s_codec := [] |}.
+
+(* op 15: the hosts of stripe k as committed *)
+Definition st_set_hosts (s : st) (k : nat) (hosts : list N) : st :=
+  {| s_n := s_n s; s_m := s_m s; s_M := s_M s; s_target := s_target s; s_tracts := s_tracts s;
+     s_chunks := s_chunks s; s_acc := s_acc s; s_stripes := s_stripes s;
+     s_hosts := set_nth k hosts (s_hosts s); s_blobs := s_blobs s; s_codec := [] |}.
+
 (* ---------- one op ---------- *)
 Definition bad : list Z := [(-1)%Z].
 
@@ -425,8 +446,7 @@ Definition step (s : st) (op : list Z) : st * list Z :=
       if negb ((tg <=? 10 * sl + 40) && (10 * sl <=? tg + 40)) then (s, [(-4)%Z]) else
       let chs := ffd lens tg in
       let acc := accepted chs tg sl in
-      ({| s_n := n'; s_m := m'; s_M := class_matrix n' m'; s_target := tg; s_tracts := trs; s_chunks := chs;
-          s_acc := map pc_leader acc; s_stripes := []; s_hosts := []; s_blobs := []; s_codec := [] |},
+      (st_pack n' m' tg sl trs,
        nz (length trs) :: flat_map (tract_place chs (map pc_leader acc)) (seq 0 (length trs))
           ++ nz (length acc) :: map (fun c => nz (pc_leader c)) acc)
   | 11%Z :: cnt :: leaders =>
@@ -436,12 +456,7 @@ Definition step (s : st) (op : list Z) : st * list Z :=
                 && forallb (fun a => memn a ls) (s_acc s) && forallb (fun a => memn a (s_acc s)) ls
                 && sorted_desc lens in
       if negb ok then (s, [0%Z]) else
-      let exts := map (fun l => match find_chunk s l with Some c => pc_exts c | None => [] end) ls in
-      let k := (length ls / s_n s)%nat in
-      let stripes := firstn k (chunks_of k (s_n s) exts) in
-      ({| s_n := s_n s; s_m := s_m s; s_M := s_M s; s_target := s_target s; s_tracts := s_tracts s;
-          s_chunks := s_chunks s; s_acc := s_acc s; s_stripes := stripes;
-          s_hosts := repeat [] k; s_blobs := s_blobs s; s_codec := [] |}, [1%Z; nz k])
+      (st_stripes s ls, [1%Z; nz (length ls / s_n s)%nat])
   | [12%Z; k] =>
       match nth_error (s_stripes s) (Z.to_nat k) with
       | Some chs => (s, nz (total s) :: nz (length chs) :: flat_map enc_chunk chs)
@@ -462,9 +477,7 @@ Definition step (s : st) (op : list Z) : st * list Z :=
       end
   | 15%Z :: k :: hosts =>
       if negb (Nat.eqb (length hosts) (total s)) || negb (Nat.ltb (Z.to_nat k) (length (s_stripes s))) then (s, bad) else
-      ({| s_n := s_n s; s_m := s_m s; s_M := s_M s; s_target := s_target s; s_tracts := s_tracts s;
-          s_chunks := s_chunks s; s_acc := s_acc s; s_stripes := s_stripes s;
-          s_hosts := set_nth (Z.to_nat k) (map zN hosts) (s_hosts s); s_blobs := s_blobs s; s_codec := [] |}, [1%Z])
+      (st_set_hosts s (Z.to_nat k) (map zN hosts), [1%Z])
   | [20%Z; k; off; len] =>
       match nth_error (s_stripes s) (Z.to_nat k) with
       | Some chs => (s, flat (stripe_windows s chs (zN off) (zN len)))
